@@ -59,6 +59,14 @@ T = {
  "C06w2-m1": ("C06", "projected index recorded with its full size: slice numbering wrong when slicing and projection are combined (same site as C02-m2)", ["C06"]),
  "C06w2-m2": ("C06", "gather_slices early exit on nchunks==1: a sliced size-1 / projected OUTPUT index loses its length-1 axis", ["C06"]),
  "own-C05-agglom-loop": ("C05", "OWN mutation (not from a sub-agent): reverts fix 8767055 - build_agglom never returns on networks with scalars/disconnected parts; shows the CPU-time guard reporting non-returning calls", ["C05"]),
+ "C01w2-m1": ("C01", "pure-multiplication step whose only summed indices have size 1 while one operand already holds every output index (needs a size-1 bond; matmul implementation)", ["C01", "C11"]),
+ "C01w2-m2": ("C01", "get_einsum_eq relabels only non-ASCII indices starting again at 'a': a step mixing ASCII and non-ASCII labels done via einsum", ["C01"]),
+ "C05w2-m1": ("C05", "'random-greedy' presets share one stateful RandomGreedyOptimizer: a later, costlier network gets the earlier path", ["C05", "C16"]),
+ "C05w2-m2": ("C05", "edge_path_to_ssa on a network where an input tensor repeats an index (KeyError)", ["C05", "C10"]),
+ "C08w2-m1": ("C08", "slicing_reconf_opts with forested=True: stats recorded from a copy, the untouched tree returned", ["C08"]),
+ "C08w2-m2": ("C08", "early termination (max_time / equil / rate): the last trial is recorded but never compared with the best", ["C08"]),
+ "C13w2-m1": ("C13", "via / implementation / autojit / sort_contraction_indices left out of the expression cache key: same contraction with and without `via`", ["C13"]),
+ "C13w2-m2": ("C13", "path cache keyed on the raw (un-canonicalised) edge path: two networks equal up to renaming queried with the same edge path", ["C13"]),
 }
 for name, (prop, needs, caught) in sorted(T.items()):
     d = os.path.join(S, name)
